@@ -14,8 +14,8 @@ CONSTANTS
   Gaps = {1, 9}
   GApis = {"do", "doAcc", "doFb", "doFbAcc", "allow"}
   GCtxs = {"none", "live", "done"}
-  GOuts = {"ok", "err", "accErr", "panic", "wrapUnavail"}
-  GAccs = {{"ok", "accErr"}}
+  GOuts = {"ok", "err", "unavail", "wrapUnavail", "ctxErr", "panicUnavail"}
+  GAccs = {{"ok", "wrapUnavail", "ctxErr"}}
   Mode = "steer"
   Variant = "code"
   Emit = TRUE
